@@ -134,29 +134,78 @@ theorem processActions_ok (xid : Nat) (acts : List Act) (hs : actsInScope acts) 
       | setTpSrc => exact lift s
       | setTpDst => exact lift s
 
+/-- the two buffer errors of the standard: BAD_REQUEST/BUFFER_UNKNOWN and BAD_REQUEST/BUFFER_EMPTY -/
+def IsBufferErr (xid : Nat) (r : Reply) : Prop :=
+  r = .error xid OFPET_BAD_REQUEST OFPBRC_BUFFER_UNKNOWN ∨ r = .error xid OFPET_BAD_REQUEST OFPBRC_BUFFER_EMPTY
+
+/-- what action processing (direct or from a buffer) may write for request `xid` -/
+def ActOut (xid : Nat) (acts : List Act) (dead : Prop) (r : Reply) : Prop :=
+  r.isAsync = true ∨ (r = .error xid OFPET_BAD_ACTION OFPBAC_BAD_TYPE ∧ ∃ a ∈ acts, actionTable.lookup a.ty = none) ∨
+    (dead ∧ IsBufferErr xid r)
+
 theorem processFromBuffer_ok (xid : Nat) (s : SwitchState) (acts : List Act) (id : Nat) (hs : actsInScope acts) :
-    ∃ s' o, processFromBuffer xid s acts id = .ok (s', o) ∧
-      ∀ r ∈ o, r.isAsync = true ∨ (r = .error xid OFPET_BAD_ACTION OFPBAC_BAD_TYPE ∧ ∃ a ∈ acts, actionTable.lookup a.ty = none) := by
+    ∃ s' o, processFromBuffer xid s acts id = .ok (s', o) ∧ ∀ r ∈ o, ActOut xid acts (bufferLive s id = false) r := by
   unfold processFromBuffer
-  split
-  · exact ⟨s, [], rfl, by simp⟩
-  split
-  · split
-    · obtain ⟨s1, o, e, a⟩ := processActions_ok xid acts hs s
-      simp only [e]
-      exact ⟨_, o, rfl, a⟩
-    · exact ⟨s, [], rfl, by simp⟩
-  · exact ⟨s, [], rfl, by simp⟩
+  by_cases h0 : id = 0
+  · rw [if_pos h0]
+    refine ⟨s, _, rfl, ?_⟩
+    intro r hr
+    simp only [List.mem_singleton] at hr
+    exact .inr (.inr ⟨by simp [bufferLive, h0], .inl hr⟩)
+  · rw [if_neg h0]
+    by_cases h : id - 1 < s.buffers.length
+    · rw [dif_pos h]
+      by_cases hb : s.buffers[id - 1] = true
+      · rw [if_pos hb]
+        obtain ⟨s1, o, e, a⟩ := processActions_ok xid acts hs s
+        simp only [e]
+        refine ⟨_, o, rfl, ?_⟩
+        intro r hr
+        rcases a r hr with h1 | h1
+        · exact .inl h1
+        · exact .inr (.inl h1)
+      · rw [if_neg hb]
+        refine ⟨s, _, rfl, ?_⟩
+        intro r hr
+        simp only [List.mem_singleton] at hr
+        have hf : s.buffers[id - 1] = false := by
+          cases hh : s.buffers[id - 1] with
+          | false => rfl
+          | true => exact absurd hh hb
+        refine .inr (.inr ⟨?_, .inr hr⟩)
+        simp [bufferLive, List.getD_eq_getElem?_getD, List.getElem?_eq_getElem h, hf]
+    · rw [dif_neg h]
+      refine ⟨s, _, rfl, ?_⟩
+      intro r hr
+      simp only [List.mem_singleton] at hr
+      refine .inr (.inr ⟨?_, .inl hr⟩)
+      have : s.buffers[id - 1]? = none := List.getElem?_eq_none (by omega)
+      simp [bufferLive, List.getD_eq_getElem?_getD, this]
 
 theorem rxPacketOut_ok (s : SwitchState) (xid : Nat) (b : Option Nat) (d : Bool) (acts : List Act) (hs : actsInScope acts) :
     ∃ s' o, rxPacketOut s xid b d acts = .ok (s', o) ∧
-      ∀ r ∈ o, r.isAsync = true ∨ (r = .error xid OFPET_BAD_ACTION OFPBAC_BAD_TYPE ∧ ∃ a ∈ acts, actionTable.lookup a.ty = none) := by
+      ∀ r ∈ o, ActOut xid acts (d = false ∧ ∃ id, b = some id ∧ bufferLive s id = false) r := by
   unfold rxPacketOut
-  split
-  · exact processActions_ok xid acts hs s
-  · cases b with
+  cases d with
+  | true =>
+    obtain ⟨s1, o, e, a⟩ := processActions_ok xid acts hs s
+    refine ⟨s1, o, by simpa using e, ?_⟩
+    intro r hr
+    rcases a r hr with h1 | h1
+    · exact .inl h1
+    · exact .inr (.inl h1)
+  | false =>
+    rw [if_neg Bool.false_ne_true]
+    cases b with
     | none => exact ⟨s, [], rfl, by simp⟩
-    | some id => exact processFromBuffer_ok xid s acts id hs
+    | some id =>
+      obtain ⟨s1, o, e, a⟩ := processFromBuffer_ok xid s acts id hs
+      refine ⟨s1, o, e, ?_⟩
+      intro r hr
+      rcases a r hr with h1 | h1 | ⟨h1, h2⟩
+      · exact .inl h1
+      · exact .inr (.inl h1)
+      · exact .inr (.inr ⟨⟨rfl, id, rfl, h1⟩, h2⟩)
 
 /-! ### flow-mod -/
 
@@ -224,6 +273,25 @@ theorem runFlowMod_out (h : FlowModH) (s : SwitchState) (xid command : Nat) (mk 
   | delete => exact .inl (flowModDelete_out false s mk prio outPort r hr)
   | deleteStrict => exact .inl (flowModDelete_out true s mk prio outPort r hr)
 
+theorem runFlowMod_buffers (h : FlowModH) (s : SwitchState) (xid command : Nat) (mk : MKey) (prio cookie flags idle hard outPort : Nat)
+    (acts : List Act) : (runFlowMod h s xid command mk prio cookie flags idle hard outPort acts).1.buffers = s.buffers := by
+  have hadd : (flowModAdd s xid command mk prio cookie flags idle hard acts).1.buffers = s.buffers := by
+    unfold flowModAdd
+    repeat' (first | split | dsimp only)
+    all_goals rfl
+  have hmod : ∀ st, (flowModModify st s xid command mk prio cookie flags idle hard acts).1.buffers = s.buffers := by
+    intro st
+    unfold flowModModify
+    split
+    · rfl
+    · exact hadd
+  cases h with
+  | add => exact hadd
+  | modify => exact hmod false
+  | modifyStrict => exact hmod true
+  | delete => rfl
+  | deleteStrict => rfl
+
 theorem rxFlowMod_ok (s : SwitchState) (xid command : Nat) (mk : MKey) (prio cookie flags idle hard outPort : Nat)
     (b : Option Nat) (acts : List Act) (hs : actsInScope acts) :
     ∃ s' o, rxFlowMod s xid command mk prio cookie flags idle hard outPort b acts = .ok (s', o) ∧ ∀ r ∈ o, ReplyOK xid r := by
@@ -250,8 +318,10 @@ theorem rxFlowMod_ok (s : SwitchState) (xid command : Nat) (mk : MKey) (prio coo
       intro r hr
       rcases List.mem_append.mp hr with h1 | h1
       · exact hok r h1
-      · rcases a2 r h1 with h2 | ⟨h2, _⟩
+      · rcases a2 r h1 with h2 | ⟨h2, _⟩ | ⟨_, h2 | h2⟩
         · exact .inl h2
+        · exact .inr ⟨_, _, h2⟩
+        · exact .inr ⟨_, _, h2⟩
         · exact .inr ⟨_, _, h2⟩
 
 /-! ### port-mod -/
